@@ -1,6 +1,7 @@
 (** C05 - scalars accept exactly the representable values, exactly, and say why not. *)
 From Deserr Require Import Base Pointer Kinds Value Prog Utf8 Scalars ScalarSpec.
-From Deserr.proofs Require Import ScalarProofs.
+From Deserr Require Import Fround.
+From Deserr.proofs Require Import ScalarProofs FroundProofs.
 
 (** Integers (all 24 targets = every [int_desc]): from any state and under any script,
     - Ok iff the kind is admissible and the number is in the target's domain, the result is then
@@ -47,9 +48,67 @@ Check c05_unit : forall script a v l s, run script (deser_unit a v l) s = outcom
 Check c05_bool : forall script a v l s, run script (deser_bool a v l) s = outcome_run a v l s (spec_bool v).
 Check c05_string : forall script a v l s, run script (deser_string a v l) s = outcome_run a v l s (spec_string v).
 Check c05_char : forall script a v l s, run script (deser_char a v l) s = outcome_run a v l s (spec_char v).
+(** Floats: f32 / f64 accept the three numeric kinds and nothing else, never fail on them, and
+    make no call; the value is computed by [Fround] (integer -> f64 / f32, f64 -> f32). *)
+Theorem c05_f64_total : forall script a v l s,
+  run script (deser_f64 a v l) s
+  = match v with
+    | VInt x => (ROk (OF64 (f64_of_Z (Z.of_N x))), s)
+    | VNeg x => (ROk (OF64 (f64_of_Z x)), s)
+    | VFloat b => (ROk (OF64 (f64_canon b)), s)
+    | _ => (RErr (N.of_nat (List.length s)), s ++ [CError a None (IncorrectValueKind v float_accepted) l])%list
+    end.
+Proof. intros script a v l s. destruct v; reflexivity. Qed.
+
+Theorem c05_f32_total : forall script a v l s,
+  run script (deser_f32 a v l) s
+  = match v with
+    | VInt x => (ROk (OF32 (f32_of_Z (Z.of_N x))), s)
+    | VNeg x => (ROk (OF32 (f32_of_Z x)), s)
+    | VFloat b => (ROk (OF32 (f32_of_f64 b)), s)
+    | _ => (RErr (N.of_nat (List.length s)), s ++ [CError a None (IncorrectValueKind v float_accepted) l])%list
+    end.
+Proof. intros script a v l s. destruct v; reflexivity. Qed.
+
+(** The rounding primitive used by every one of those conversions rounds to nearest, ties to
+    even: [round_even m s] is within half a unit of m / 2^s, and on an exact tie it is even.
+    (The assembly of sign / exponent / mantissa fields around it is tied to the implementation and
+    to Flocq's [binary_normalize] by bit-exact comparison on every run, not by a theorem.) *)
+Theorem c05_round_even_nearest : forall m s : N,
+  (0 < s)%N ->
+  let q := round_even m s in
+  (2 ^ s * q <= m + 2 ^ (s - 1))%N /\ (m <= 2 ^ s * q + 2 ^ (s - 1))%N
+  /\ ((m + 2 ^ (s - 1) = 2 ^ s * q)%N \/ (m = 2 ^ s * q + 2 ^ (s - 1))%N -> N.even q = true).
+Proof. exact round_even_nearest. Qed.
+
+Check c05_f64_total : forall script a v l s,
+  run script (deser_f64 a v l) s
+  = match v with
+    | VInt x => (ROk (OF64 (f64_of_Z (Z.of_N x))), s)
+    | VNeg x => (ROk (OF64 (f64_of_Z x)), s)
+    | VFloat b => (ROk (OF64 (f64_canon b)), s)
+    | _ => (RErr (N.of_nat (List.length s)), s ++ [CError a None (IncorrectValueKind v float_accepted) l])%list
+    end.
+Check c05_f32_total : forall script a v l s,
+  run script (deser_f32 a v l) s
+  = match v with
+    | VInt x => (ROk (OF32 (f32_of_Z (Z.of_N x))), s)
+    | VNeg x => (ROk (OF32 (f32_of_Z x)), s)
+    | VFloat b => (ROk (OF32 (f32_of_f64 b)), s)
+    | _ => (RErr (N.of_nat (List.length s)), s ++ [CError a None (IncorrectValueKind v float_accepted) l])%list
+    end.
+Check c05_round_even_nearest : forall m s : N,
+  (0 < s)%N ->
+  let q := round_even m s in
+  (2 ^ s * q <= m + 2 ^ (s - 1))%N /\ (m <= 2 ^ s * q + 2 ^ (s - 1))%N
+  /\ ((m + 2 ^ (s - 1) = 2 ^ s * q)%N \/ (m = 2 ^ s * q + 2 ^ (s - 1))%N -> N.even q = true).
+
 Print Assumptions c05_int_exact.
 Print Assumptions c05_in_domain.
 Print Assumptions c05_unit.
 Print Assumptions c05_bool.
 Print Assumptions c05_string.
 Print Assumptions c05_char.
+Print Assumptions c05_f64_total.
+Print Assumptions c05_f32_total.
+Print Assumptions c05_round_even_nearest.
